@@ -398,6 +398,8 @@ pub struct NodeCfg {
     pub bind: Option<SocketAddr>,
     /// install a (pass-through, counting) user `outbound_request_layer`
     pub outbound_layer: Option<Arc<AtomicUsize>>,
+    /// wrap the service in `tower::limit::ConcurrencyLimit` (back-pressure through `poll_ready`)
+    pub concurrency_limit: Option<usize>,
 }
 
 /// Pass-through outbound layer that counts the requests it sees.
@@ -439,6 +441,7 @@ impl NodeCfg {
             config: default_config(),
             bind: None,
             outbound_layer: None,
+            concurrency_limit: None,
         }
     }
 }
@@ -591,7 +594,10 @@ impl World {
         if let Some(counter) = &cfg.outbound_layer {
             b = b.outbound_request_layer(CountLayer(counter.clone()));
         }
-        let net = b.start(svc)?;
+        let net = match cfg.concurrency_limit {
+            Some(k) => b.start(tower::limit::ConcurrencyLimit::new(svc, k))?,
+            None => b.start(svc)?,
+        };
         let peer_id = net.peer_id();
         let addr = net.local_addr();
         self.registry.insert(
